@@ -369,7 +369,7 @@ Section changes.
       + inversion H; subst. pose proof (classify_key _ _ _ _ _ E) as Hk. simpl in Hk. subst. reflexivity.
       + inversion H; subst. reflexivity.
     - destruct (diff_at eq (Changes.last c) cur k) as [[k' y|k' y|k' o y]|] eqn:E; split; intros H; try discriminate;
-        try (destruct H as [old H]; apply elem_of_merge_diff in H; simpl in H; rewrite E in H; discriminate).
+        try (match type of H with ex _ => destruct H as [? H] end; apply elem_of_merge_diff in H; simpl in H; rewrite E in H; discriminate).
       + inversion H; subst. exists o. apply elem_of_merge_diff. simpl.
         pose proof (classify_key _ _ _ _ _ E) as Hk. simpl in Hk. subst. exact E.
       + destruct H as [old H]. apply elem_of_merge_diff in H. simpl in H. rewrite E in H. inversion H; subst. reflexivity.
@@ -448,20 +448,6 @@ Section merge.
 
   (* what the loop writes at a key it visits *)
   Definition merge_g (cl cr : zmap) (k : Z) : option Z := merge_at fn k (cl !! k) (cr !! k).
-
-  Lemma merge_loop_step_lookup (cl cr out : zmap) key :
-    (match cl !! key, cr !! key with
-     | None, None => delete key out
-     | l, r => match fn key (mk_element l r) with
-               | Some merged => <[key := merged]> out
-               | None => delete key out
-               end
-     end) = partial_alter (fun _ => merge_g cl cr key) key out.
-  Proof.
-    unfold merge_g, merge_at.
-    destruct (cl !! key) as [a|], (cr !! key) as [b|]; try reflexivity;
-      destruct (fn key _); reflexivity.
-  Qed.
 
   Lemma merge_loop_lookup (cl cr : zmap) touched first previous out k :
     (first = false -> out !! previous = merge_g cl cr previous) ->
@@ -1990,15 +1976,15 @@ Proof. intros k a b _. reflexivity. Qed.
 
 Example map_values_example :
   let ms : list zmap := [{[1 := 10; 2 := 20]}; {[2 := 21; 3 := 30]}; ∅; {[5 := 1; 1 := 2; 9 := 3]}] in
-  MapValues.value (fold_left (MapValues.Stabilize (Some Z.eqb) (fun k v => 2 * k + v)) ms MapValues.init)
-  = {[1 := 4; 5 := 11; 9 := 21]}.
+  entries (MapValues.value (fold_left (MapValues.Stabilize (Some Z.eqb) (fun k v => 2 * k + v)) ms MapValues.init))
+  = [(1, 4); (5, 11); (9, 21)].
 Proof. vm_compute. reflexivity. Qed.
 
 (* with equal = nil a rebind is ignored: the promise is about first-seen values *)
 Example map_values_nil_keeps_first_seen :
   let ms : list zmap := [{[1 := 10]}; {[1 := 11]}] in
-  MapValues.value (fold_left (MapValues.Stabilize None (fun k v => v)) ms MapValues.init) = {[1 := 10]}
-  /\ (seen_fold None ms).1 = {[1 := 10]}.
+  entries (MapValues.value (fold_left (MapValues.Stabilize None (fun k v => v)) ms MapValues.init)) = [(1, 10)]
+  /\ entries (seen_fold None ms).1 = [(1, 10)].
 Proof. vm_compute. auto. Qed.
 
 Example merge_respects_example :
@@ -2015,20 +2001,29 @@ Example unordered_fold_contract_example :
   (forall a k v, remove (add a k v) k v = a).
 Proof. simpl. split; intros; lia. Qed.
 
+Lemma consistent_empty keyOf : consistent keyOf ∅.
+Proof. intros k x Hk. rewrite lookup_empty in Hk. discriminate. Qed.
+
+Lemma consistent_insert keyOf k x (m : zmap) :
+  keyOf x = k -> consistent keyOf m -> consistent keyOf (<[k := x]> m).
+Proof.
+  intros Hx Hm k' x' Hk. destruct (decide (k' = k)) as [->|Hne].
+  - rewrite lookup_insert in Hk. congruence.
+  - rewrite lookup_insert_ne in Hk by congruence. apply Hm. exact Hk.
+Qed.
+
 Example join_hypotheses_example :
   let evs := [Join.Observe; Join.SetOuter {[0 := 0; 1 := 1]}; Join.Pass; Join.SetInner 1 7; Join.Pass;
               Join.SetOuter {[0 := 4; 1 := 1]}; Join.SetInner 4 9] in
   let keyOf := fun x => Z.rem x 4 in
   (forall m, Join.SetOuter m ∈ evs -> consistent keyOf m) /\ Join.Unobserve ∉ evs /\
   let j := fold_left (Join.step false) (evs ++ [Join.Pass]) (Join.init {[0 := 1; 1 := 2; 4 := 5]}) in
-  Join.ingraph j = true /\ Join.value j = {[0 := 9; 1 := 7]}.
+  Join.ingraph j = true /\ entries (Join.value j) = [(0, 9); (1, 7)].
 Proof.
   split; [|split].
   - intros m Hm. repeat (apply elem_of_cons in Hm as [Hm|Hm]; [try discriminate|]); [| |inversion Hm];
-      inversion Hm; subst; intros k x Hk;
-      (destruct (decide (k = 0)) as [->|?]; [|destruct (decide (k = 1)) as [->|?]]);
-      [vm_compute in Hk; inversion Hk; reflexivity..|
-       rewrite !lookup_insert_ne, lookup_empty in Hk by congruence; discriminate].
+      inversion Hm; subst;
+      repeat (apply consistent_insert; [reflexivity|]); apply consistent_empty.
   - intros Hm. repeat (apply elem_of_cons in Hm as [Hm|Hm]; [try discriminate|]). inversion Hm.
   - vm_compute. auto.
 Qed.
